@@ -381,6 +381,61 @@ macro_rules! set_mod {
                         }
                         Err(_) => "key err".to_string(),
                     },
+                    // every single-bit flip of signature (s), public key (p), message (m), context (c): list those that still verify
+                    "flipscan" => {
+                        let (pkb, msg, sigb, ctx) = (hex(a[2]), hex(a[3]), hex(a[4]), hex(a[5]));
+                        let mode = a[6];
+                        let run = |pkb: &[u8], msg: &[u8], sigb: &[u8], ctx: &[u8]| -> bool {
+                            match api::PublicKey::try_from_bytes(arr::<PK_LEN>(pkb)) {
+                                Ok(pk) => {
+                                    let sig = arr::<SIG_LEN>(sigb);
+                                    match mode {
+                                        "pure" => pk.verify(msg, &sig, ctx),
+                                        "internal" => api::_internal_verify(&pk, msg, &sig, ctx),
+                                        p => pk.hash_verify(msg, &sig, ctx, &ph(p)),
+                                    }
+                                }
+                                Err(_) => false,
+                            }
+                        };
+                        if !run(&pkb, &msg, &sigb, &ctx) {
+                            return "ok base-rejected".to_string();
+                        }
+                        let mut acc: Vec<String> = vec![];
+                        let mut total = 0usize;
+                        let pk0 = api::PublicKey::try_from_bytes(arr::<PK_LEN>(&pkb)).expect("harness: pk");
+                        for pos in 0..sigb.len() * 8 {
+                            let mut b = sigb.clone();
+                            b[pos / 8] ^= 1 << (pos % 8);
+                            let sig = arr::<SIG_LEN>(&b);
+                            let r = match mode {
+                                "pure" => pk0.verify(&msg, &sig, &ctx),
+                                "internal" => api::_internal_verify(&pk0, &msg, &sig, &ctx),
+                                p => pk0.hash_verify(&msg, &sig, &ctx, &ph(p)),
+                            };
+                            total += 1;
+                            if r { acc.push(format!("s{}", pos)); }
+                        }
+                        for pos in 0..pkb.len() * 8 {
+                            let mut b = pkb.clone();
+                            b[pos / 8] ^= 1 << (pos % 8);
+                            total += 1;
+                            if run(&b, &msg, &sigb, &ctx) { acc.push(format!("p{}", pos)); }
+                        }
+                        for pos in 0..msg.len() * 8 {
+                            let mut b = msg.clone();
+                            b[pos / 8] ^= 1 << (pos % 8);
+                            total += 1;
+                            if run(&pkb, &b, &sigb, &ctx) { acc.push(format!("m{}", pos)); }
+                        }
+                        for pos in 0..ctx.len() * 8 {
+                            let mut b = ctx.clone();
+                            b[pos / 8] ^= 1 << (pos % 8);
+                            total += 1;
+                            if run(&pkb, &msg, &sigb, &b) { acc.push(format!("c{}", pos)); }
+                        }
+                        format!("ok {} {}", total, if acc.is_empty() { "-".to_string() } else { acc.join(",") })
+                    }
                     "sk_load" => okerr(sk_of_spec(a[2]), |sk| sk_dump(&sk)),
                     "pk_load" => okerr(pk_of_spec(a[2]), |pk| pk_dump(&pk)),
                     "sk_bytes" => match sk_of_spec(a[2]) {
